@@ -121,7 +121,10 @@ pub fn run_c07(ctx: &mut Ctx) {
     let mut r = ctx.rng(7);
     let (level, shard, nshards) = (ctx.level, ctx.shard, ctx.nshards);
     let rep = &mut ctx.rep;
-    rep.exhaustive = level >= 2;
+    rep.exhaustive = false;
+    if level >= 2 {
+        rep.note("the product type x version x token length x ALL 65536 message ids was enumerated completely (request contents are sampled)");
+    }
     set_case_str("C07 response correlation");
     let stride: u32 = match level {
         0 => 4099,
